@@ -91,8 +91,14 @@ def col_value(t: pa.DataType, i: int) -> Any:
 def build_request(ch: Any, host: FakeShmHost, own: ShmSegment | None, label: str) -> tuple[bytes, dict[str, Any]]:
     """One well-framed request stream from the grammar; returns (bytes, description)."""
     desc: dict[str, Any] = {}
-    mname = METHOD_NAMES[ch.choose(len(METHOD_NAMES), label + ".method")]
-    ver = VERSIONS[ch.choose(len(VERSIONS), label + ".ver")]
+    # Which dimensions of this request are broken is drawn first (each with probability 1/4, so most requests are valid
+    # in most respects): deeper code - parameter validation, the connection's segment cache, dispatch - is only reached
+    # by requests that are right about everything that is checked before it.  Within a broken dimension the old grammar
+    # applies.  About one request in eight keeps the fully uniform grammar.
+    uniform = ch.choose(8, label + ".uniform") == 7
+    brk = {d: (uniform or ch.choose(4, f"{label}.brk.{d}") == 3) for d in ("method", "version", "shm", "shmptr", "extras", "cols", "rows")}
+    mname = METHOD_NAMES[ch.choose(len(METHOD_NAMES), label + ".method")] if brk["method"] else METHOD_NAMES[ch.choose(4, label + ".method")]
+    ver = VERSIONS[ch.choose(len(VERSIONS), label + ".ver")] if brk["version"] else b"1"
     if mname in (b"p_plain", b"x_plain") and ver != b"1":
         # a header-less stream request is followed by the client's input stream; the server can only consume it when it
         # got far enough to know the method (the unknown-method flavour of this is the recorded C04 finding)
@@ -105,14 +111,19 @@ def build_request(ch: Any, host: FakeShmHost, own: ShmSegment | None, label: str
     desc["method"] = repr(mname)
     desc["version"] = repr(ver)
     # ---- shared-memory keys
-    shm_kind = ch.choose(12, label + ".shm")
+    # with an own segment, advertising it correctly (kind 1) and advertising it again with a broken size (kind 4) are
+    # made likelier: what the connection remembers about a segment it attached earlier is part of the history
+    if brk["shm"]:
+        shm_kind = ch.weighted([6, 4, 1, 1, 3, 1, 1, 1, 1, 1, 1, 1], label + ".shm") if own is not None else ch.choose(12, label + ".shm")
+    else:
+        shm_kind = ch.choose(2, label + ".shm.valid") if own is not None else 0  # nothing, or the own segment advertised correctly
     if shm_kind:
         names = {1: own.name.encode() if own else b"missing_segment", 2: b"no_such_segment_xyz", 3: b"foreign_segment",
                  4: own.name.encode() if own else b"x", 5: b"\xff\xfebad", 6: b"", 7: b"foreign_segment",
                  # names the OS refuses before any lookup (EINVAL, not ENOENT) and one that never reaches it (NUL)
                  8: b"a/b", 9: b".", 10: b"n" * 300, 11: b"a\x00b"}
         md[b"vgi_rpc.shm_segment_name"] = names[shm_kind]
-        size_kind = ch.choose(6, label + ".shmsize")
+        size_kind = ch.choose(6, label + ".shmsize") if brk["shm"] else ch.choose(2, label + ".shmsize.valid")
         sizes = [str(own.size if own else 4096).encode(), None, b"abc", b"-1", b"0", b"99999999999999999999"]
         if shm_kind == 4:
             size_kind = max(size_kind, 2)
@@ -120,7 +131,7 @@ def build_request(ch: Any, host: FakeShmHost, own: ShmSegment | None, label: str
             md[b"vgi_rpc.shm_segment_size"] = sizes[size_kind]  # type: ignore[assignment]
         desc["shm"] = (shm_kind, size_kind)
         ch.fault(f"shm_name_kind{shm_kind}")
-    off_kind = ch.choose(6, label + ".shmoff")
+    off_kind = ch.choose(6, label + ".shmoff") if brk["shmptr"] else 0
     if off_kind:
         md[b"vgi_rpc.shm_offset"] = [b"", b"0", b"4096", b"99999999999", b"abc", b"-5"][off_kind]
         md[b"vgi_rpc.shm_length"] = [b"", b"64", b"0", b"99999999999", b"xyz", b"-1"][ch.choose(6, label + ".shmlen")]
@@ -132,15 +143,15 @@ def build_request(ch: Any, host: FakeShmHost, own: ShmSegment | None, label: str
               (b"vgi_rpc.location.sha256", [b"00"]), (b"vgi_rpc.log_level", [b"INFO", b"EXCEPTION", b"\xff"]), (b"vgi_rpc.log_message", [b"m"]),
               (b"vgi_rpc.stream_state#b64", [b"AAAA"]), (b"vgi_rpc.call_state#b64", [b"!!!"]), (b"vgi_rpc.request_id", [b"\xff"]),
               (b"random-key", [b"v", b"\xff\x00\xfe"]), (b"\xffkey", [b"x"])]
-    nextra = ch.choose(4, label + ".nextra")
+    nextra = ch.choose(4, label + ".nextra") if brk["extras"] else 0
     for j in range(nextra):
         k, vals = extras[ch.choose(len(extras), f"{label}.x{j}")]
         md[k] = vals[ch.choose(len(vals), f"{label}.xv{j}")]
         ch.fault("md_key:" + k.decode("latin1"))
     desc["extra_keys"] = sorted(k.decode("latin1") for k in md)
     # ---- columns
-    col_kind = ch.choose(5, label + ".cols")  # 0 = exactly what a probe_u/u_args call would send
-    rows = [1, 1, 0, 2, 3][ch.choose(5, label + ".rows")]
+    col_kind = ch.choose(5, label + ".cols") if brk["cols"] else 0  # 0 = exactly what a probe_u/u_args call would send
+    rows = [1, 1, 0, 2, 3][ch.choose(5, label + ".rows")] if brk["rows"] else 1
     if col_kind == 0:
         fields = [pa.field("tag", pa.int64(), nullable=False)]
         if mname == b"u_args":
